@@ -116,6 +116,14 @@ def case_points(case):
             pts += q[1]
         elif k == "ntrk":
             pts += q[2]
+        elif k == "ncall":
+            o = q[1]
+            if o[0] == "p":
+                pts.append(o[1:3])
+            elif o[0] == "s":
+                pts += [o[1:3], o[3:5]]
+            elif o[0] == "t":
+                pts += o[1]
     return pts
 
 
@@ -337,6 +345,8 @@ class P(Prop):
     id = "C08"
     design_ref = "DESIGN.md section 5, C08 and appendix A.3"
     M = "TracklibVerif.Props.C08"
+    M2 = "TracklibVerif.Props.C08Search"
+    M3 = "TracklibVerif.Props.C08SegSearch"
     theorems = [
         (M, "TV.C08.straddle_necessary", "two closed segments sharing a point pass isSegmentIntersects (val1 <= 0 and val2 <= 0), touching ends and zero-length segments included"),
         (M, "TV.C08.cells_complete", "a point P of segment [c1,c2] in cell (i,j) — i <= Px < i+1, or i = csize-1 and i <= Px <= csize (last column closed on the upper border), same for j — implies (i,j) in __cellsCrossSegment(c1,c2), segments lying on the upper border included"),
@@ -361,18 +371,39 @@ class P(Prop):
         (M, "TV.C08.grid_always_builds", "the repairs 9a44198 and degenerate-extent: default or positive explicit cell size, ANY bounding box (thin, flat, a single point, shorter than the cell size): __init__ reaches the registration loop without raising, with >= 1 column and >= 1 row, positive cell sides, cells tiling every axis of positive length exactly and one column / row on an axis of zero length"),
         (M, "TV.C08.flat_axis_single_column", "on a built index whose extent has zero length along an axis (a straight north-south or east-west track) that axis has one column / row and every point of the extent has index 0 on it"),
         (M, "TV.C08.isFloor_ratFloor", "Rat.floor, the driver's math.floor, satisfies the floor contract assumed by the theorems"),
+        (M2, "TV.C08.units_cover_ground_distance", "what a radius of U >= 0 UNITS means on the ground: a point of the extent whose coordinates differ from those of q by at most U*min(dX,dY) lies in a cell at most U columns and rows from the cell of q (the square neighborhood(q, unit=U) reads)"),
+        (M2, "TV.C08.neighborhood_unit_complete", "neighborhood(q, unit=U), U >= 0 given directly in units, every q of the closed extent of an index on which nothing raises: returns, and contains every feature listed in the cell of a point of the extent within Euclidean distance U*min(dX,dY) of q"),
+        (M2, "TV.C08.incremental_search_complete", "neighborhood(q, unit=-1) (incremental search), every q of the closed extent: returns a list l and there is a last ring U with (a) l = EXACTLY what the cells at most U units from the cell of q list (the clipped rings lose no cell), (b) every feature listed in the cell of a point within Euclidean distance U*min(dX,dY) of q is in l, (c) l empty iff no cell of the grid lists anything, else U >= 1, a cell at most U-1 units away lists a feature and none at most U-2 units away does (stops one ring after the first non-empty ring)"),
+        (M2, "TV.C08.incremental_search_on_built_index", "the same on a built index in terms of the features: every feature with a point within U*min(dX,dY) of q is returned, and the answer is not empty as soon as the collection has a segment"),
+        (M2, "TV.C08.incremental_search_misses_nearest", "REFUTATION with witness (square unit cells, 10 x 10): 'the nearest feature is among those returned by neighborhood(q, unit=-1)' is false: the track in ring 1 at distance > 2.2 is returned, the search stops after ring 2, the track in ring 3 at distance 2.125 is omitted (replayed on the real code: corpus 21)"),
+        (M2, "TV.C08.segment_neighborhood_complete", "neighborhood([Q1,Q2], None, unit=groundDistanceToUnits(d)), both ends in the closed extent, d >= 0: both calls return and the answer contains every feature listed in the cell of a point of the extent within Euclidean distance d of SOME point of the query segment"),
+        (M2, "TV.C08.track_neighborhood_complete", "neighborhood(track, None, unit=groundDistanceToUnits(d)), every vertex in the closed extent: returns and contains every feature listed in the cell of a point within d of some point of some segment of the query track"),
+        (M2, "TV.C08.late_feature_outside_exact", "addFeature(track, num) / Network.addEdge for ANY track (vertices outside the extent allowed): returns, keeps extent / dimensions / earlier registrations; first vertex outside => NOTHING is registered (index unchanged); first vertex inside => the result is exactly addFeature of the polyline through the inside vertices (chords replace the legs through outside vertices), every point of every such chord is in a cell listing num, and every leg with BOTH ends inside is such a chord"),
+        (M2, "TV.C08.late_feature_first_vertex_outside_dropped", "witness: the edge (200,50)-(40,50)-(60,50) added to an index of extent [-5,105]^2 is not found at (50,50), a point of its segment lying wholly inside the extent; the same edge given from its other end is (corpus 22)"),
+        (M2, "TV.C08.late_feature_outside_leg_not_registered", "witness: the edge (40,50)-(50,200)-(60,50) leaves the extent at its middle vertex: the chord (40,50)-(60,50) is registered, the point (42,80) of the first leg, inside the extent, finds nothing (corpus 22)"),
+        (M2, "TV.C08.rounded_cell_in_grid", "for ANY monotone rounded subtraction / division exact on o-o and 0/d (IEEE in any rounding mode): the column min(floor(min((x-xmin)/dX, csize)), csize-1) computed for x >= xmin is a column of the grid: no IndexError and no negative index wrapping to the last column"),
+        (M2, "TV.C08.rounded_cell_mono", "under the same assumptions the computed column is monotone in x"),
+        (M2, "TV.C08.rounded_cell_at_xmin", "under the same assumptions xmin is in column 0"),
+        (M2, "TV.C08.rounded_floor_may_reach_csize", "REFUTATION (counter-model): monotone rounding exact at both ends of the extent does not give floor((x-xmin)/dX) < csize for xmin <= x < xmax — only the clamp keeps the point in the last column; in IEEE doubles it happens for xmin=0, xmax=0.5, 7 columns, x=0.49999999999999994 (corpus 23)"),
+        (M3, "TV.C08.segment_search_complete", "neighborhood([Q1,Q2], None, -1), both ends in the closed extent: returns; None exactly when nothing is found up to the last radius, and then no cell of the grid lists anything; otherwise a non-empty list l = EXACTLY what the cells at most U units from a crossed cell list, U-1 >= 0 the first radius that lists something, and every feature listed in the cell of a point within Euclidean distance U*min(dX,dY) of some point of the query segment is in l"),
+        (M3, "TV.C08.track_search_returns", "neighborhood(track, None, -1), every vertex in the closed extent, on an index in which some cell lists something: returns a list containing the whole answer of the segment search of every segment of the query track"),
+        (M3, "TV.C08.track_search_on_empty_index", "on an index in which no cell lists anything neighborhood(track, None, -1) raises TypeError (the segment search returns None and the loop iterates over it): mirrored by the model, outside the property"),
+        (M3, "TV.C08.neighborhood_call_keyword", "argument handling of neighborhood(obj, j=None, unit=0): with the radius passed by keyword (as every caller inside tracklib does) or as third positional argument, the coordinate / segment / track / cell forms are the neighbourhoods of that radius the other theorems speak about; j is read by the cell form only"),
+        (M3, "TV.C08.neighborhood_call_positional_unit_ignored", "the second POSITIONAL parameter is j: neighborhood(coord, 2) — the form the comment above the method advertises — is neighborhood(coord, unit=0), likewise for the segment and track forms; the cell form without j raises TypeError"),
+        (M3, "TV.C08.neighborhood_call_complete", "completeness of the neighbourhood query at the level of the call: for every value of the unused j, neighborhood(q, j, unit=groundDistanceToUnits(d)) returns every feature listed in the cell of a point within d of q"),
+        (M3, "TV.C08.neighborhood_positional_unit_witness", "witness: neighborhood(coord, unit=2) finds edge 2, neighborhood(coord, 2) on the same index returns the empty list (corpus 24)"),
     ]
     partial = []
     open_statements = [
-        "theorems are over an ordered field with an exact floor: IEEE rounding in (x-xmin)/dX and in the straddle products is outside them (sampled by the flt stream with a 1e-7-cell guard); the one rounding situation met — the index of x = xmax exceeding csize by an ulp, so that a segment lying on the border was registered nowhere — is removed by the cap min(index, csize) of __getCell (identity in exact arithmetic: getCell_min_is_identity) and generated on purpose by the float stream",
-        "the unit = -1 incremental searches of neighborhood and the given-unit segment/track neighbourhoods are modelled and compared with the implementation, no theorem is stated about them (the property does not mention them)",
-        "later addFeature calls with a vertex OUTSIDE the extent are modelled and compared (the `continue` that keeps a stale coord1 and so registers a chord instead of the two legs), no theorem is stated about them: late_feature_complete is about additions inside the extent",
+        "IEEE rounding: the completeness theorems are over an ordered field with an exact floor; rounding in (x-xmin)/dX and in the straddle products is outside them (sampled by the flt stream with a 1e-7-cell guard). Proved for any monotone rounding (rounded_cell_in_grid / _mono / _at_xmin): the computed column of a point of the extent is a column of the grid, monotone in x, 0 at xmin. NOT true in doubles, hence not proved: floor((x-xmin)/dX) < csize for x < xmax (corpus 23; rounded_floor_may_reach_csize) — the cap min(index, csize) of __getCell (identity in exact arithmetic: getCell_min_is_identity) and the clamp to csize-1 absorb it. Not proved: that the computed column is within one column of the exact one, and anything about the rounded straddle test",
+        "neighborhood(q, unit=-1): what is proved is incremental_search_complete (everything within the last ring read, one ring past the first non-empty one), and segment_search_complete / track_search_returns for the segment and track forms (first non-empty radius u, then radius u+1; None on an index that lists nothing, on which the track form raises TypeError: track_search_on_empty_index). That the NEAREST feature is returned is false (incremental_search_misses_nearest). The given-unit segment / track forms are covered by segment_neighborhood_complete / track_neighborhood_complete for unit = groundDistanceToUnits(d); neighborhood(i, j, unit) called directly with a cell OUTSIDE the grid (Python's negative indices) is modelled and compared only",
+        "later addFeature / Network.addEdge calls with a vertex OUTSIDE the extent: late_feature_outside_exact says exactly what is registered (nothing when the first vertex is outside; otherwise the polyline through the inside vertices). Completeness for the part INSIDE the extent of a leg that has an end outside is false (late_feature_outside_leg_not_registered, late_feature_first_vertex_outside_dropped) — outside the property, whose feature sets lie inside the extent (the extent of a built index contains its collection); reported as an observation. That NOTHING but the cells of those chords is registered (the converse inclusion) is not stated",
     ]
     modelled = ("TrackCollection.createSpatialIndex (its verbose flag becomes the constructor's margin) and Network.createSpatialIndex as front ends, the default margin 0.05 of the constructor and of "
                 "Network.createSpatialIndex when the call leaves it out (createIndexArgs), Network.addEdge on an indexed network (networkAddEdges: the registration loop from the running edge number, the numbers are the model's); "
                 "SpatialIndex.__init__ (extent from bbox + margin, explicit and default resolution, one column / row and a non-zero cell side on a degenerate axis), __getCell, "
                 "__cellsCrossSegment (index box clamped to the last column / row), __getCell with its cap min(index, size), __addSegment, addFeature, request (cell/point/segment/track; the point form with the clamped cell), __neighboringcells, "
-                "neighborhood (cell/point/segment/track; unit >= 0 and the incremental unit = -1 search), "
+                "neighborhood (cell/point/segment/track; unit >= 0 and the incremental unit = -1 search; its argument handling neighborhood(obj, j=None, unit=0): dispatch on the class of obj, arguments left out, the radius given positionally landing in j — Model/GridCall.lean, query kind ncall), "
                 "groundDistanceToUnits, __addCellValuesInTAB of core/spatial_index.py; cartesienne, __eval, "
                 "isSegmentIntersects of util/geometry.py; TrackCollection/Network bbox as min/max of the vertices")
     trusted = ["correspondence relation: implementation ⊇ model on every returned list of features / cells and on cell contents (extras are permitted by the property; "
@@ -572,6 +603,17 @@ class P(Prop):
                 return (self.mk(q[2]),)
             if k == "getcell":
                 return (self.E(fl(q[1]), fl(q[2]), 0.0),)
+            if k == "ncall":
+                o = q[1]
+                if o[0] == "c":
+                    return (int(o[1]),)
+                if o[0] == "p":
+                    return (E(fl(o[1]), fl(o[2]), 0.0),)
+                if o[0] == "s":
+                    return ([E(fl(o[1]), fl(o[2]), 0.0), E(fl(o[3]), fl(o[4]), 0.0)],)
+                if o[0] == "t":
+                    return (self.mk(o[1]),)
+                raise HarnessError("unknown object form %r" % (o,))
             if k in ("cell", "ncell", "units", "cross", "inter"):
                 return ()
         except Exception as e:
@@ -596,6 +638,18 @@ class P(Prop):
                 return None if r is None else sorted(r)
             if k == "ntrk":
                 return sorted(si.neighborhood(args[0], None, q[1]))
+            if k == "ncall":
+                # the call neighborhood(obj, j, unit) in the argument form of the query: `_` = the argument is left out
+                j, u = q[2], q[3]
+                if j == "_" and u == "_":
+                    r = si.neighborhood(args[0])
+                elif u == "_":
+                    r = si.neighborhood(args[0], j)              # second positional parameter: j
+                elif j == "_":
+                    r = si.neighborhood(args[0], unit=u)
+                else:
+                    r = si.neighborhood(args[0], j, u)
+                return None if r is None else sorted(r)
             if k == "units":
                 return int(si.groundDistanceToUnits(fl(q[1])))
             if k == "nd":
@@ -652,6 +706,15 @@ class P(Prop):
                     qs.append(";".join([k] + [str(v) for v in q[1:]]))
                 elif k in ("npt", "nseg"):
                     qs.append(";".join([k] + [num(v) for v in q[1:-1]] + [str(q[-1])]))
+                elif k == "ncall":
+                    o = q[1]
+                    if o[0] == "c":
+                        ob = "c:%d" % o[1]
+                    elif o[0] == "t":
+                        ob = "t:" + ",".join(num(v) for p in o[1] for v in p)
+                    else:
+                        ob = o[0] + ":" + ",".join(num(v) for v in o[1:])
+                    qs.append(";".join([k, ob, str(q[2]), str(q[3])]))
                 elif k == "trk":
                     qs.append(";".join([k] + [num(v) for p in q[1] for v in p]))
                 elif k == "ntrk":
@@ -711,7 +774,7 @@ class P(Prop):
                 qo.append({"err": t})
             elif k in ("cell", "pt", "seg", "trk", "ncell", "ntrk"):
                 qo.append(nats(t))
-            elif k in ("npt", "nseg"):
+            elif k in ("npt", "nseg", "ncall"):
                 qo.append(None if t == "none" else nats(t))
             elif k == "units":
                 qo.append(int(t))
@@ -1003,6 +1066,14 @@ class P(Prop):
                 qs.append(["ntrk", rng.choice([-1, 0, 1]), [Pin() for _ in range(rng.randrange(2, 4))]])
             elif r < 0.92:
                 qs.append(["ncell", rng.randrange(-1, cs + 1), rng.randrange(-1, ls + 1), rng.choice([-1, 0, 1, 2])])
+            elif r < 0.94:
+                # the call neighborhood(obj, j, unit) with arguments left out / the radius given positionally (it lands in j);
+                # radii >= 0 only (the searches are the npt / nseg / ntrk queries)
+                form = rng.choice(["c", "p", "p", "s", "t"])
+                obj = (["c", rng.randrange(0, cs)] if form == "c" else ["p"] + p if form == "p" else ["s"] + Pin() + Pin() if form == "s"
+                       else ["t", [Pin() for _ in range(rng.randrange(2, 4))]])
+                j = rng.choice(["_", 0, 1, 2]) if form != "c" else rng.choice(["_", rng.randrange(0, ls), rng.randrange(0, ls)])
+                qs.append(["ncall", obj, j, rng.choice(["_", "_", 0, 1, 2])])
             elif r < 0.96:
                 qs.append(["cell", rng.randrange(-1, cs + 1), rng.randrange(-1, ls + 1)])
             else:
